@@ -67,6 +67,11 @@ func resample(ls orb.LineString, dists []float64, totalDistance float64, totalPo
 		for currentDistance <= nextDistance {
 			// need to add a point
 			percent := (currentDistance - dist) / currentSegDistance
+			if percent > 1 {
+				// nextDistance is a rounded sum, on a very short segment
+				// that can put the point past the segment's end.
+				percent = 1
+			}
 			points = append(points, orb.Point{
 				currentSeg[0][0] + percent*(currentSeg[1][0]-currentSeg[0][0]),
 				currentSeg[0][1] + percent*(currentSeg[1][1]-currentSeg[0][1]),
